@@ -57,6 +57,26 @@ fn reused_issuer_pass(rep: &Report) {
             }
         }
     });
+    // sizes in the history: a very large issuance between small ones on one instance
+    {
+        use crate::drive;
+        let small = json!({"iss": crate::gen::ISS, "exp": crate::gen::EXP, "a": 1, "b": [2]});
+        let wide = &wide_trees()[0];
+        let wide_obj = &wide_trees()[1];
+        let mut l = crate::report::Local::default();
+        let mut issuer = drive::new_issuer(crate::keys::issuer_enc(Alg::HS256, 0), Some("HS256"));
+        for (k, (u, s, fmt)) in [(&small, Strat::All, Fmt::Compact), (wide, Strat::All, Fmt::Json), (&small, Strat::All, Fmt::Compact), (wide_obj, Strat::All, Fmt::Compact), (&small, Strat::Top, Fmt::Json), (&small, Strat::NoSd, Fmt::Compact), (wide, Strat::Top, Fmt::Compact), (&small, Strat::All, Fmt::Json)].iter().enumerate() {
+            l.evals += 1;
+            let cfg = Cfg { fmt: *fmt, ..Cfg::CHEAP };
+            let out = drive::issue(&mut issuer, u, s, None, false, *fmt);
+            let (_, bad) = pipeline::c05_oracle(u, s, &cfg, &out);
+            for (class, site, detail) in bad {
+                let case = json!({"kind": "reused_issuer_sizes", "k": k});
+                l.violation(crate::report::Violation::new("issue", &class, format!("size_history:{site}"), "after_very_large_issuance", crate::report::truncate(&detail, 300), case));
+            }
+        }
+        rep.merge(l);
+    }
     rep.scope_done(json!({"scope": "one reused issuer per tree: S(3,3), every strategy in ascending then descending order, formats / decoys / holder key varying per call, HS256 and EdDSA", "evaluations": rep.evals() - before}));
 }
 
@@ -64,6 +84,27 @@ pub fn replay_reused(case: &Value) -> Vec<crate::report::Violation> {
     use crate::drive;
     use crate::report::{Local, Violation};
     let mut l = Local::default();
+    if case["kind"] == "reused_issuer_sizes" {
+        let small = json!({"iss": crate::gen::ISS, "exp": crate::gen::EXP, "a": 1, "b": [2]});
+        let wide = &wide_trees()[0];
+        let wide_obj = &wide_trees()[1];
+        let upto = case["k"].as_u64().unwrap_or(0) as usize;
+        let mut issuer = drive::new_issuer(crate::keys::issuer_enc(Alg::HS256, 0), Some("HS256"));
+        for (k, (u, s, fmt)) in [(&small, Strat::All, Fmt::Compact), (wide, Strat::All, Fmt::Json), (&small, Strat::All, Fmt::Compact), (wide_obj, Strat::All, Fmt::Compact), (&small, Strat::Top, Fmt::Json), (&small, Strat::NoSd, Fmt::Compact), (wide, Strat::Top, Fmt::Compact), (&small, Strat::All, Fmt::Json)].iter().enumerate() {
+            if k > upto {
+                break;
+            }
+            let cfg = Cfg { fmt: *fmt, ..Cfg::CHEAP };
+            let out = drive::issue(&mut issuer, u, s, None, false, *fmt);
+            if k == upto {
+                let (_, bad) = pipeline::c05_oracle(u, s, &cfg, &out);
+                for (class, site, detail) in bad {
+                    l.violation(Violation::new("issue", &class, format!("size_history:{site}"), "after_very_large_issuance", crate::report::truncate(&detail, 300), case.clone()));
+                }
+            }
+        }
+        return l.violations();
+    }
     let u = &case["claims"];
     let alg = Alg::from_name(case["alg"].as_str().unwrap_or("HS256"));
     let mut issuer = drive::new_issuer(crate::keys::issuer_enc(alg, 0), Some(alg.name()));
